@@ -11,7 +11,7 @@ RULE = ("S-syn listings x rules with $not in leading, inner, trailing and repeat
         "a record). Non-trivial = model finds the rule or one mutation from a found case; distinct = (rule, listing).")
 FLOOR = {"quick": 300, "thorough": 4000}
 ANCHOR_HINTS = ["node_branch_root", "ast_builder"]
-REQUIRED_EVENTS = ["hits_located", "operand_not_probes", "double_negation_probes", "capture_as_not_argument_probes"]
+REQUIRED_EVENTS = ["hits_located", "operand_not_probes", "double_negation_probes", "capture_as_not_argument_probes", "wide_instruction_probes"]
 
 
 def feat(rng):
@@ -27,6 +27,7 @@ def run_shard(ctx):
     strata.double_negation_stratum(ctx, d, ctx.share(96, 4000))
     if ctx.shard == 3 % ctx.nshards:
         strata.capture_not_stratum(ctx, d)
+    strata.wide_instruction_stratum(ctx, d, ctx.share(96, 4000))
 
 
 def replay(ctx, case):
